@@ -170,5 +170,39 @@ func main() {
 		meta["netlink_usersock"] = fmt.Sprintf("available, %d datagrams from a second user-space socket", sent)
 		uc.Close()
 	}
+	// (e) a non-kernel sender that multicasts to a group the client subscribed to
+	mc, err := libaudit.NewNetlinkClient(syscall.NETLINK_USERSOCK, 1, make([]byte, 65536), nil)
+	if err != nil {
+		meta["netlink_usersock_multicast"] = "not available: " + err.Error()
+	} else {
+		s3, err := syscall.Socket(syscall.AF_NETLINK, syscall.SOCK_RAW, syscall.NETLINK_USERSOCK)
+		sent := 0
+		if err == nil {
+			syscall.Bind(s3, &syscall.SockaddrNetlink{Family: syscall.AF_NETLINK})
+			syscall.SetNonblock(fdOf(mc), true)
+			for _, l := range []int{0, 1, 15, 16, 17, 20, 32, 64, 200} {
+				for rep := 0; rep < 2; rep++ {
+					b := rnd(r, l)
+					if rep == 1 && l >= 16 {
+						binary.LittleEndian.PutUint32(b[0:], uint32(l))
+						binary.LittleEndian.PutUint32(b[12:], 0)
+					}
+					// the broadcast to the group is followed by a unicast to port 0, which nobody listens on here: ECONNREFUSED after delivery
+					if err := syscall.Sendto(s3, b, 0, &syscall.SockaddrNetlink{Family: syscall.AF_NETLINK, Pid: 0, Groups: 1}); err != nil && err != syscall.ECONNREFUSED {
+						continue
+					}
+					msgs, err := mc.Receive(true, syscall.ParseNetlinkMessage)
+					if err == syscall.EAGAIN || err == syscall.EWOULDBLOCK {
+						continue // not delivered
+					}
+					sent++
+					out.Case(fmt.Sprintf("NForeign %d %v %v", l, err != nil, len(msgs) > 0), map[string]interface{}{"foreign_multicast_len": l, "err": fmt.Sprint(err)}, "foreign-multicast-sender", true)
+				}
+			}
+			syscall.Close(s3)
+		}
+		meta["netlink_usersock_multicast"] = fmt.Sprintf("available, %d multicast datagrams from a second user-space socket", sent)
+		mc.Close()
+	}
 	out.Meta(meta)
 }
